@@ -253,6 +253,11 @@ def op_has_argument(opcode: int, opc) -> bool:
     """
     Return True if `opcode` instruction has an operand.
     """
+    if opc.version_tuple >= (3, 13):
+        # HAVE_ARGUMENT no longer separates the two groups exactly (e.g.
+        # WITH_EXCEPT_START is 44 == HAVE_ARGUMENT but takes no operand);
+        # dis uses the ``hasarg`` list.
+        return opcode in opc.ARG_OPS
     return opcode >= opc.HAVE_ARGUMENT
 
 
